@@ -1,0 +1,38 @@
+//go:build verif
+
+package candidates
+
+import (
+	"math/big"
+
+	"github.com/MinterTeam/minter-go-node/coreV2/types"
+)
+
+// Verification hook (build tag `verif`): observes only.
+
+// VerifStake is a read-only copy of one stake or update entry.
+type VerifStake struct {
+	Owner    types.Address
+	Coin     types.CoinID
+	Value    *big.Int
+	BipValue *big.Int
+}
+
+// VerifUpdates returns copies of the pending stake updates of a candidate as they are in memory
+// (nil when the candidate does not exist). The live state has no exported getter for them.
+func (c *Candidates) VerifUpdates(pubkey types.Pubkey) []VerifStake {
+	candidate := c.GetCandidate(pubkey)
+	if candidate == nil {
+		return nil
+	}
+	candidate.lock.RLock()
+	defer candidate.lock.RUnlock()
+	var res []VerifStake
+	for _, u := range candidate.updates {
+		if u == nil {
+			continue
+		}
+		res = append(res, VerifStake{Owner: u.Owner, Coin: u.Coin, Value: big.NewInt(0).Set(u.Value), BipValue: big.NewInt(0).Set(u.BipValue)})
+	}
+	return res
+}
